@@ -89,3 +89,298 @@ def _still_param(fa: FA, name_node, st, p, params) -> bool:
                 continue
             return False
     return True
+
+
+# ---- value flow (meaning of a local, whatever temporaries / helper results carry it) -----------------------
+def _bound_names(e) -> set:
+    out = set()
+    for x in ast.walk(e):
+        if isinstance(x, ast.comprehension):
+            out |= {n.id for n in ast.walk(x.target) if isinstance(n, ast.Name)}
+        if isinstance(x, ast.Lambda):
+            out |= {a.arg for a in x.args.args + x.args.kwonlyargs + x.args.posonlyargs}
+    return out
+
+
+def at_of(fa: FA, expr) -> int:
+    ids = fa.nodes(expr)
+    if not ids:
+        from ..loader import AnalysisError
+        raise AnalysisError("%s: expression `%s` has no (reachable) CFG node" % (fa.qual, A.short(expr, 60)))
+    return ids[0]
+
+
+def mutation_sites(fa: FA):
+    """[(name, cfg node id, [value exprs])]: statements that put values INTO the container held by a local
+    name without rebinding it: `x[k] = v`, `x.append(v)`, `x.update(v)`, ...  (a result built by a loop instead
+    of a comprehension)."""
+    cached = getattr(fa, "_mut_sites", None)
+    if cached is not None:
+        return cached
+    out = []
+    for st in fa.stmts():
+        if isinstance(st, (ast.If, ast.For, ast.While, ast.With, ast.Try, ast.FunctionDef, ast.AsyncFunctionDef, ast.ClassDef)):
+            continue
+        ids = fa.nodes(st)
+        if not ids:
+            continue
+        tg = st.targets if isinstance(st, ast.Assign) else [st.target] if isinstance(st, (ast.AugAssign, ast.AnnAssign)) else []
+        for t in tg:
+            for x in ([t] if not isinstance(t, (ast.Tuple, ast.List)) else t.elts):
+                if isinstance(x, ast.Subscript) and isinstance(x.value, ast.Name) and getattr(st, "value", None) is not None:
+                    out.append((x.value.id, ids[0], [st.value, x.slice]))
+        for c in A.calls_in(st):
+            if isinstance(c.func, ast.Attribute) and c.func.attr in MUTATORS and isinstance(c.func.value, ast.Name):
+                vals = [a.value if isinstance(a, ast.Starred) else a for a in c.args] + [k.value for k in c.keywords]
+                if vals:
+                    out.append((c.func.value.id, ids[0], vals))
+    fa._mut_sites = out
+    return out
+
+
+def flow_nodes(fa: FA, expr, at: int = None):
+    """[(ast node, cfg node id)]: every expression node the value of `expr` (evaluated at `at`) may be computed
+    from: its own sub-expressions and, through local names, the values of all reaching definitions (plain
+    assignments, loop / unpack / with bindings) and what loops put into a container the name holds —
+    transitively.  Control dependencies (tests) are NOT part of the flow."""
+    if at is None:
+        at = at_of(fa, expr)
+    out = []
+    seen = set()
+    seen_sites = set()
+
+    def rec(e, at_):
+        bound = _bound_names(e)
+        for n in ast.walk(e):
+            out.append((n, at_))
+            if isinstance(n, ast.Name) and isinstance(n.ctx, ast.Load) and n.id not in bound and fa.df.is_local(n.id):
+                defs = fa.df.reaching(at_, n.id)
+                for d in defs:
+                    if d.value is None or d.kind == "except":
+                        continue
+                    key = (d.node, d.name)
+                    if key in seen:
+                        continue
+                    seen.add(key)
+                    rec(d.value, d.node)
+                here = {(d.node, d.name) for d in defs}
+                for (nm, site, vals) in mutation_sites(fa):
+                    if nm != n.id or (nm, site) in seen_sites:
+                        continue
+                    there = {(d.node, d.name) for d in fa.df.reaching(site, nm)}
+                    if here & there:
+                        seen_sites.add((nm, site))
+                        for v in vals:
+                            rec(v, site)
+
+    rec(expr, at)
+    return out
+
+
+def alternatives(fa: FA, expr, at: int = None, _seen=None):
+    """[(expr, cfg node id)]: the expressions whose value `expr` may hold: a local that is only ever bound
+    by plain assignments stands for the alternatives of the assigned values, a conditional expression
+    for those of its two arms; anything else stands for itself."""
+    if at is None:
+        at = at_of(fa, expr)
+    seen = _seen if _seen is not None else set()
+    if isinstance(expr, ast.IfExp):
+        return alternatives(fa, expr.body, at, seen) + alternatives(fa, expr.orelse, at, seen)
+    if isinstance(expr, ast.Name) and fa.df.is_local(expr.id):
+        defs = fa.df.reaching(at, expr.id)
+        if defs and all(d.kind == "assign" and d.value is not None for d in defs):
+            out = []
+            for d in defs:
+                key = (d.node, d.name)
+                if key in seen:
+                    continue
+                seen.add(key)
+                out += alternatives(fa, d.value, d.node, seen)
+            return out
+    return [(expr, at)]
+
+
+def param_rooted(fa: FA, name_node, at: int, param: str) -> bool:
+    """Does the Name hold the object bound to parameter `param` here (the parameter itself or a plain alias)?"""
+    if not isinstance(name_node, ast.Name):
+        return False
+    todo = [(name_node.id, at)]
+    seen = set()
+    while todo:
+        nm, a_ = todo.pop()
+        defs = fa.df.reaching(a_, nm)
+        if not defs:
+            return False
+        for d in defs:
+            if d.kind == "param":
+                if d.name != param:
+                    return False
+                continue
+            if d.kind == "assign" and isinstance(d.value, ast.Name):
+                if (d.node, d.name) not in seen:
+                    seen.add((d.node, d.name))
+                    todo.append((d.value.id, d.node))
+                continue
+            return False
+    return True
+
+
+def attr_writes(fa: FA, dotted: str):
+    """[(stmt, value expr, augmented?)] for every statement that stores into the attribute chain `dotted`
+    ('self._x'), also as one element of a tuple assignment `self._a, self._b = (x, y)`."""
+    out = []
+    for st in fa.stmts((ast.Assign, ast.AugAssign, ast.AnnAssign)):
+        if isinstance(st, ast.AugAssign):
+            if A.dotted(st.target) == dotted:
+                out.append((st, st.value, True))
+            continue
+        if getattr(st, "value", None) is None:
+            continue
+        for t in (st.targets if isinstance(st, ast.Assign) else [st.target]):
+            if A.dotted(t) == dotted:
+                out.append((st, st.value, False))
+            elif isinstance(t, (ast.Tuple, ast.List)):
+                for i, e in enumerate(t.elts):
+                    if A.dotted(e) == dotted:
+                        v = st.value
+                        if isinstance(v, (ast.Tuple, ast.List)) and len(v.elts) == len(t.elts) and not any(isinstance(x, ast.Starred) for x in v.elts):
+                            out.append((st, v.elts[i], False))
+                        else:
+                            out.append((st, v, False))
+    return out
+
+
+def _simplify(conds):
+    cs = set(conds)
+    changed = True
+    while changed:
+        changed = False
+        lst = list(cs)
+        for i in range(len(lst)):
+            for j in range(i + 1, len(lst)):
+                a, b = lst[i], lst[j]
+                diff = a ^ b
+                if len(diff) == 2:
+                    x, y = tuple(diff)
+                    if x[0] == y[0] and x[1] != y[1]:
+                        cs.discard(a)
+                        cs.discard(b)
+                        cs.add(a & b)
+                        changed = True
+                        break
+            if changed:
+                break
+        if not changed:
+            for a in list(cs):
+                if any(b < a for b in cs):
+                    cs.discard(a)
+                    changed = True
+    return cs
+
+
+def return_cases(fa: FA, cap: int = 4000):
+    """What the function returns, per path class: [(value expr or None for an implicit `return`, cfg node id,
+    set of frozensets of branch literals)].  A returned local stands for the value last assigned to it ON THAT
+    PATH (result-variable style and early-return style give the same cases); conditional expressions are split
+    into their arms.  Literals are those of FA.conditions.  None when there are too many paths."""
+    cfg = fa.cfg
+    res = {}
+    count = [0]
+
+    def resolve(v, at_, env):
+        hops = 0
+        while isinstance(v, ast.Name) and v.id in env and hops < 20:
+            v, at_ = env[v.id]
+            hops += 1
+        return v, at_
+
+    def split(v, at_, env):
+        v, at_ = resolve(v, at_, env)
+        if isinstance(v, ast.IfExp):
+            out = []
+            for (l_, x_, a_) in split(v.body, at_, env):
+                out.append((fa._atoms(v.test, at_, True) + l_, x_, a_))
+            for (l_, x_, a_) in split(v.orelse, at_, env):
+                out.append((fa._atoms(v.test, at_, False) + l_, x_, a_))
+            return out
+        return [([], v, at_)]
+
+    def dfs(n, onpath, lits, env, ret):
+        if count[0] > cap:
+            return
+        if n == cfg.exit:
+            count[0] += 1
+            cases = ret if ret is not None else [([], None, n)]
+            for (extra, v, a_) in cases:
+                if any((x[0], not x[1]) in lits for x in extra):
+                    continue
+                key = id(v) if v is not None else 0
+                res.setdefault(key, [v, a_, set()])[2].add(frozenset(lits + [x for x in extra if x not in lits]))
+            return
+        nd = cfg.node(n)
+        if nd.kind == "stmt" and isinstance(nd.ast, ast.Return):
+            ret = split(nd.ast.value, n, env) if nd.ast.value is not None else [([], None, n)]
+        gen = fa.df.gen.get(n, [])
+        if gen:
+            env = dict(env)
+            for d in gen:
+                if d.kind == "assign" and d.value is not None and "." not in d.name:
+                    env[d.name] = (d.value, n)
+                else:
+                    env.pop(d.name, None)
+        for (d, l) in cfg.succ[n]:
+            if d in onpath or l == "exc":
+                continue
+            add = []
+            if nd.kind == "test" and l in ("T", "F") and not isinstance(fa.pm.get(nd.ast), ast.While):
+                add = fa._atoms(nd.ast, n, l == "T")
+            if any((a[0], not a[1]) in lits for a in add):
+                continue
+            onpath.add(d)
+            dfs(d, onpath, lits + [a for a in add if a not in lits], env, ret)
+            onpath.discard(d)
+
+    dfs(cfg.entry, {cfg.entry}, [], {}, None)
+    if count[0] > cap:
+        return None
+    return [(v, a_, _simplify(conds)) for (v, a_, conds) in res.values()]
+
+
+def reaches_avoiding(fa: FA, start: int, avoid, targets) -> bool:
+    """Is one of `targets` reachable from cfg node `start` without passing a node of `avoid`, following only
+    feasible branches with respect to the True / False / None constants assigned to plain locals or parameters
+    along the way (`external = True ... if external:` is followed into the taken arm only)?"""
+    from ..cfg import CFG
+    cfg = fa.cfg
+    avoid = set(avoid)
+    targets = set(targets)
+    seen = set()
+    stack = [(start, ())]
+    while stack:
+        n, val = stack.pop()
+        if (n, val) in seen or n in avoid:
+            continue
+        seen.add((n, val))
+        if n in targets:
+            return True
+        nd = cfg.node(n)
+        env = dict(val)
+        after = dict(env)
+        for d in fa.df.gen.get(n, []):
+            if "." in d.name:
+                continue
+            if d.kind == "assign" and isinstance(d.value, ast.Constant) and (d.value.value is None or isinstance(d.value.value, bool)):
+                after[d.name] = d.value.value
+            else:
+                after.pop(d.name, None)
+        verdict = "U"
+        if nd.kind == "test":
+            verdict = CFG._ev(nd.ast, env)
+        for (d, l) in cfg.succ[n]:
+            if verdict is True and l == "F":
+                continue
+            if verdict is False and l == "T":
+                continue
+            nxt = env if l == "exc" else after
+            stack.append((d, tuple(sorted(nxt.items(), key=lambda kv: kv[0]))))
+    return False
